@@ -514,10 +514,13 @@ where
         let core_req = proto_convert::to_core_read_req(proto_req);
 
         // Fast path: Eventual/LeaseRead → ReadHandle (ReadActor + cmd_tx fallback).
+        // Only when the server honours client-requested policies: with overrides disabled the
+        // request goes through the Raft loop, which applies the server's default policy.
         {
             use d_engine_core::client::ClientApiError;
             use d_engine_core::config::ReadConsistencyPolicy;
             if let Some(ref policy) = core_req.consistency_policy
+                && self.node_config.raft.read_consistency.allow_client_override
                 && matches!(
                     policy,
                     ReadConsistencyPolicy::EventualConsistency | ReadConsistencyPolicy::LeaseRead
